@@ -1,0 +1,33 @@
+//go:build verif
+
+package attacks
+
+import . "github.com/paulsonkoly/chess-3/chess"
+
+// Verification hooks (build tag verif). Add-only.
+
+// VerifTables exposes the constant tables behind the attack lookups.
+type VerifTables struct {
+	King, Knight              [64]BitBoard
+	BishopMasks, BishopMagics [64]BitBoard
+	RookMasks, RookMagics     [64]BitBoard
+	BishopShifts, RookShifts  [64]int
+}
+
+// VerifGetTables returns a copy of the constant tables.
+func VerifGetTables() VerifTables {
+	t := VerifTables{King: kingMoves, Knight: knightMoves}
+	for i := 0; i < 64; i++ {
+		t.BishopMasks[i] = BitBoard(bishopMasks[i])
+		t.BishopMagics[i] = BitBoard(bishopMagics[i])
+		t.RookMasks[i] = BitBoard(rookMasks[i])
+		t.RookMagics[i] = BitBoard(rookMagics[i])
+		t.BishopShifts[i] = int(bishopShifts[i])
+		t.RookShifts[i] = int(rookShifts[i])
+	}
+	return t
+}
+
+// VerifBishopCell / VerifRookCell expose raw table cells.
+func VerifBishopCell(sq, ix int) BitBoard { return bishopAttacks[sq][ix] }
+func VerifRookCell(sq, ix int) BitBoard   { return rookAttacks[sq][ix] }
